@@ -295,6 +295,14 @@ func taLog(r *rng, maxRows int, s *sink) string {
 		if r.chance(1, 5) {
 			fmt.Fprintf(&b, "# Lap %d: %02d:%02d:%02d.%03d%s", lapNo, r.intn(2), r.intn(60), r.intn(60), r.intn(1000), eol)
 			lapNo += 1 + r.intn(2)/1*boolInt(r.chance(1, 8))
+			if r.chance(1, 12) {
+				// a marker that repeats or goes below the laps already closed: must be rejected
+				lapNo -= 1 + r.intn(2)
+				if lapNo < 0 {
+					lapNo = 0
+				}
+				s.count("wf.marker.backwards")
+			}
 			markers++
 		}
 		if r.chance(1, 25) {
